@@ -43,6 +43,16 @@ ASSUMPTIONS = [
 ]
 
 
+def _huge_indent(tree):
+    try:
+        secs = [tree.preamble_section] + [c.preamble_section
+                                          for c in tree.changes]
+        return any(isinstance(s.options.get('indent'), int) and
+                   s.options['indent'] > 100000 for s in secs)
+    except Exception:
+        return False
+
+
 class World(object):
     def __init__(self, rng, obs, seed):
         from pydiffx.dom import DiffX
@@ -266,6 +276,11 @@ class World(object):
                     self.case(), {'shared': repr(shared_exc)[:200],
                                   'fresh': repr(fresh_exc)[:200]})
                 self.failed = True
+            elif shared_exc is None and _huge_indent(t):
+                # a corrupted header declared an indent of millions of
+                # spaces: serialising that tree allocates indent x lines
+                # bytes (a cost question, not an isolation one); not kept
+                self.obs.count('parsed_tree_with_huge_indent_not_kept')
             elif shared_exc is None:
                 # ref has not been looked at by anything yet: observing t
                 # must not make it differ from its untouched twin
@@ -552,11 +567,45 @@ def check_default_value_isolation(obs):
                            'class_default': repr(sub.default_value)})
 
 
+def check_streaming_results_isolated(data, obs):
+    """Records yielded by the streaming reader are parse results too: a
+    consumer that edits or empties a record it was handed (its options
+    dictionary included) must not change any record yielded later."""
+    from pydiffx.reader import DiffXReader
+    plain, vandal = [], []
+    exc = [None, None]
+    for k, out in enumerate((plain, vandal)):
+        try:
+            for r in DiffXReader(io.BytesIO(data)):
+                out.append(copy.deepcopy(common.project(r)))
+                if k == 1:
+                    opts = r.get('options')
+                    if isinstance(opts, dict):
+                        opts.clear()
+                        opts['encoding'] = 'utf-32'
+                        opts['length'] = 1
+                    for key in list(r):
+                        if key != 'options':
+                            r[key] = None
+        except Exception as e:
+            exc[k] = type(e).__name__
+    obs.count('streaming_results_isolation_checked')
+    if exc[0] != exc[1] or common.diff_records(plain, vandal) is not None:
+        obs.violation('shared_mutable_state:streaming_record_feeds_back',
+                      {'streaming_file': data},
+                      {'untouched': exc[0], 'edited': exc[1],
+                       'diff': common.diff_records(plain, vandal)})
+
+
 def run(ctx):
     obs = ctx.obs
     rng = ctx.rng
     if ctx.index == 0:
         check_default_value_isolation(obs)
+    for _ in range(ctx.share(ctx.pick(600, 20000))):
+        doc = recipe.gen_doc(rng, 3, 3, enc_p=0.4)
+        obs.case(('streaming', doc), nontrivial=True)
+        check_streaming_results_isolated(serialize(doc)[0], obs)
     n = ctx.share(ctx.pick(1600, 50000))
     for k in range(n):
         seed = rng.randrange(1 << 40)
@@ -570,5 +619,7 @@ def run(ctx):
 def replay(case, obs):
     if 'default_value_class' in case:
         return check_default_value_isolation(obs)
+    if 'streaming_file' in case:
+        return check_streaming_results_isolated(case['streaming_file'], obs)
     # histories are a pure function of their seed; replay the whole one
     run_history(case['seed'], max(case.get('n_ops', 100), 30) + 5, obs)
